@@ -278,12 +278,12 @@ theorem counters_bounded (u h : Nat) (hu : 1 ≤ u) (hh : 1 ≤ h) (flag0 : Bool
       | false =>
         obtain ⟨e1, l1⟩ := h1 rfl
         simp only at e1 hb
-        cases r <;> simp only [step, isSucc_eq_ok, Result.ok, Gen.HealthCheck.handleSuccess, Gen.HealthCheck.handleFailure] <;>
+        cases r <;> simp only [step, isSucc_eq_ok, Result.ok, Gen.HealthCheck.handleSuccess, Gen.HealthCheck.handleFailure, Gen.HealthCheck.incHealthyChanged, Gen.HealthCheck.decHealthyChanged] <;>
           simp <;> (try split) <;> simp_all <;> omega
       | true =>
         obtain ⟨e2, l2⟩ := h2 rfl
         simp only at e2 hb
-        cases r <;> simp only [step, isSucc_eq_ok, Result.ok, Gen.HealthCheck.handleSuccess, Gen.HealthCheck.handleFailure] <;>
+        cases r <;> simp only [step, isSucc_eq_ok, Result.ok, Gen.HealthCheck.handleSuccess, Gen.HealthCheck.handleFailure, Gen.HealthCheck.incHealthyChanged, Gen.HealthCheck.decHealthyChanged] <;>
           simp <;> (try split) <;> simp_all <;> omega
   exact key rs (St.init flag0) [] (inv_init u h hu hh flag0) (by simp [St.init])
 
